@@ -39,7 +39,7 @@ def run(ctx):
     # condition here too and is reported under this property as well
     from .common import RuleProxy
     from . import C06
-    C06.run(RuleProxy(ctx, {'C06-2.grades': 'C07-9.profile', 'C06-3.curves': 'C07-9.profile', 'C06-8.value': 'C07-9.profile', 'C06-9.finish': 'C07-9.profile'}))
+    C06.run(RuleProxy(ctx, {k: 'C07-9.profile' for k in C06.RULES if k not in ('C06-4.catenary', 'C06-6.contiguity')}))
     prog = ctx.prog
     eng = engine(ctx)
     g = eng.const_value('uc::ACC_GRAV')
